@@ -4,13 +4,15 @@
 # change on a persistent mirror (MX_DIR, default /tmp/mx2: scratch worktree of /repo's HEAD +
 # copy of /verif), so /repo stays untouched. Create the mirror first with
 #   MX_DIR=/tmp/mx2 MX_KEEP=1 tools/matrix.sh <log> <some patch-dir>
-# Env: TIER=thorough, TIER_ENV="VERIF_RUNS=..." are passed through to try_patch.sh.
+# Env: MX_NOSYNC=1 keeps the mirror's copy of /verif as it is; TIER=thorough, TIER_ENV="VERIF_RUNS=..." are passed through to try_patch.sh.
 set -u
 V="$(cd "$(dirname "$0")/.." && pwd)"
 MX="${MX_DIR:-/tmp/mx2}"
 [ -d "$MX/repo" ] || { echo "no mirror at $MX"; exit 2; }
 d="$(readlink -f "$1")"; shift
+if [ -z "${MX_NOSYNC:-}" ]; then
 rsync -a --exclude target --exclude .git --exclude replays --exclude evidence "$V/" "$MX/verif/"
 sed -i "s#/repo#$MX/repo#g" "$MX/verif/check" "$MX/verif/tools/try_patch.sh" "$MX/verif/py/build_ext.sh" "$MX/verif/sim/Cargo.toml"
+fi
 git -C "$MX/repo" checkout -q -- . 2>/dev/null
 cd "$MX/verif" && tools/try_patch.sh "$d/patch.diff" "$@"
